@@ -3313,6 +3313,11 @@ class MaybeAlignPartitions(Expr):
             except TypeError:
                 # either unknown divisions or int-str mix
                 return None, None
+        dfs = self.args
+        if all(dfs[0].divisions == df.divisions and df.known_divisions for df in dfs):
+            # Nothing to align (see _lower): the partitions stay as they are,
+            # including a repeated last division
+            return dfs[0].divisions
         return calc_divisions_for_align(*self.args)
 
     def _simplify_up(self, parent, dependents):
